@@ -31,6 +31,9 @@ ATLAS_Q = [
     ("a_tracks_2d", [["Select", f"lambda e: {JETS}.Select(lambda j: e.Tracks('InDetTrackParticles').Select(lambda t: t.pt() + j.pt()))"]]),
     ("a_jet_sin", [["SelectMany", f"lambda e: {JETS}"], ["Select", "lambda j: sin(j.phi())"]]),
     ("a_jet_abs_ifexp", [["SelectMany", f"lambda e: {JETS}"], ["Select", "lambda j: j.pt() if abs(j.eta()) < 1.5 else 0.0"]]),
+    # a built-in function applied to an int-typed and to a double-typed expression (the function table is module-level)
+    ("a_jet_abs_int", [["SelectMany", f"lambda e: {JETS}"], ["Select", "lambda j: abs(j.nTrk())"]]),
+    ("a_jet_abs_dbl", [["SelectMany", f"lambda e: {JETS}"], ["Select", "lambda j: abs(j.eta())"]]),
     ("a_jet_attr", [["SelectMany", f"lambda e: {JETS}"], ["Select", "lambda j: j.getAttributeFloat('emf')"]]),
     ("a_jet_color_enum", [["SelectMany", f"lambda e: {JETS}"], ["Where", "lambda j: j.color() == xAOD.Jet.Color.Red"],
                           ["Select", "lambda j: j.pt()"]]),
@@ -87,6 +90,8 @@ CMS_AOD_Q = [
     ("c_mu_first", [["Select", 'lambda e: e.Muons("muons").First().pt()']]),
     ("c_forkmuons", [["SelectMany", 'lambda e: e.ForkMuons("forked")'], ["Select", "lambda m: m.pt()"]]),
     ("c_mu_userfunc", [["SelectMany", 'lambda e: e.Muons("muons")'], ["Select", "lambda m: my_scale(m.pt(), 2.0)"]]),
+    ("c_mu_abs_int", [["SelectMany", 'lambda e: e.Muons("muons")'], ["Select", "lambda m: abs(m.charge())"]]),
+    ("c_mu_abs_dbl", [["SelectMany", 'lambda e: e.Muons("muons")'], ["Select", "lambda m: abs(m.eta())"]]),
     ("c_mu_dphi_user", [["SelectMany", 'lambda e: e.Muons("muons")'], ["Select", "lambda m: deltaPhi(m.phi(), 0.0)"]]),
     ("c_mu_innertrack_hits", [["SelectMany", 'lambda e: e.Muons("muons")'],
                               ["Select", "lambda m: m.innerTrack().hitPattern().numberOfValidHits()"]]),
@@ -116,6 +121,8 @@ CMS_MINI_Q = [
     ("m_mu_el_two", [["Select", 'lambda e: (e.Muons("slimmedMuons").Count(), e.Electrons("slimmedElectrons").Count())']]),
     ("m_mu_first", [["Select", 'lambda e: e.Muons("slimmedMuons").First().pt()']]),
     ("m_forkmuons", [["SelectMany", 'lambda e: e.ForkMuons("forked")'], ["Select", "lambda m: m.pt()"]]),
+    ("m_mu_abs_int", [["SelectMany", 'lambda e: e.Muons("slimmedMuons")'], ["Select", "lambda m: abs(m.charge())"]]),
+    ("m_mu_abs_dbl", [["SelectMany", 'lambda e: e.Muons("slimmedMuons")'], ["Select", "lambda m: abs(m.eta())"]]),
     ("m_mu_dphi_user", [["SelectMany", 'lambda e: e.Muons("slimmedMuons")'], ["Select", "lambda m: deltaPhi(m.phi(), 0.0)"]]),
     ("m_mu_besttrack_hits", [["SelectMany", 'lambda e: e.Muons("slimmedMuons")'],
                              ["Select", "lambda m: m.bestTrack().hitPattern().numberOfValidHits()"]]),
@@ -159,6 +166,9 @@ METADATA = {
     "jet_color_bool": (_mt("xAOD::Jet", "color", return_type="bool"), ["atlas"]),
     "jet_cvals": (_mt("xAOD::Jet", "cvals", return_type_element="float"), ["atlas"]),
     "jet_cvals_coll": (_mt("xAOD::Jet", "cvals", return_type_element="double", return_type_collection="MyVec*"), ["atlas"]),
+    "jet_ntrk_int": (_mt("xAOD::Jet", "nTrk", return_type="int"), ["atlas"]),
+    "recomu_charge_int": (_mt("reco::Muon", "charge", return_type="int"), ["cms_aod"]),
+    "patmu_charge_int": (_mt("pat::Muon", "charge", return_type="int"), ["cms_miniaod"]),
     # retyping methods that have *default* declarations
     "truth_prodvtx_double": (_mt("xAOD::TruthParticle", "prodVtx", return_type="double"), ["atlas"]),
     "truth_parent_deref": (_mt("xAOD::TruthParticle", "parent", return_type="xAOD::TruthParticle**", deref_count=1), ["atlas"]),
@@ -243,6 +253,9 @@ NEEDS = {
     "a_jet_userfunc": ["fn_scale"],
     "c_mu_userfunc": ["fn_scale"],
     "a_jet_constituents": ["jet_cvals"],
+    "a_jet_abs_int": ["jet_ntrk_int"],
+    "c_mu_abs_int": ["recomu_charge_int"],
+    "m_mu_abs_int": ["patmu_charge_int"],
     "a_jet_dphi_user": ["fn_dphi"],
     "a_jet_dr_user": ["fn_dr"],
     "c_mu_dphi_user": ["fn_dphi"],
